@@ -707,6 +707,12 @@ func checkVerifyMultiSignature(c *core.Ctx, rule string) {
 		c.Broken(rule, fn, "outer loop i < m", c.P.Rel(fn.Pos()), sprintf("%d", len(outer)))
 		return
 	}
+	// the used-key mask must live across signatures: allocated once, outside the per-signature loop
+	if mi, isI := maskAlloc.(ssa.Instruction); isI {
+		rr := ir.NewReach(fn)
+		rr.RunFromBlock(outer[0].Body)
+		c.Decide(!rr.Instr(mi), rule, fn, "the used-key mask is allocated once, before the per-signature loop (distinctness holds across signatures)", c.P.Rel(mi.Pos()), "")
+	}
 	eng.IterationMustExec(c, rule, fn, outer[0].Header, outer[0].Body, "for i < m", "a mask[j]=true store (one distinct key per signature)", func(in ssa.Instruction) bool {
 		for _, ms := range maskStores {
 			if in == ms {
